@@ -13,6 +13,10 @@ pub trait Battery: Form + Clone + PartialEq + Debug + Send + Sync + 'static {
     const NAME: &'static str;
     /// Attribute combination this type is in the battery for (evidence only).
     const COVERS: &'static str;
+    /// Canonical paths (see `canon.rs`) at which this type holds a `HashMap`: reading a map
+    /// keeps the last of several entries with the same key, which is not counted as dropping
+    /// information.
+    const MAP_PATHS: &'static [&'static str] = &[];
     fn instances(p: &Pools) -> Vec<Self>;
     fn normal(&self) -> Self {
         self.clone()
@@ -109,9 +113,13 @@ macro_rules! cart {
 
 macro_rules! battery {
     ($ty:ty, $name:expr, $covers:expr, |$p:ident, $out:ident| $body:block) => {
+        battery!($ty, $name, $covers, maps = [], |$p, $out| $body);
+    };
+    ($ty:ty, $name:expr, $covers:expr, maps = [$($m:expr),*], |$p:ident, $out:ident| $body:block) => {
         impl Battery for $ty {
             const NAME: &'static str = $name;
             const COVERS: &'static str = $covers;
+            const MAP_PATHS: &'static [&'static str] = &[$($m),*];
             #[allow(unused_variables, unused_mut)]
             fn instances($p: &Pools) -> Vec<Self> {
                 let mut $out: Vec<Self> = vec![];
@@ -330,7 +338,7 @@ pub struct BodyMap {
     pub m: HashMap<String, i32>,
     pub h: i32,
 }
-battery!(BodyMap, "BodyMap", "body HashMap", |p, out| { cart!(out; m in p.maps(), h in p.i32s(); BodyMap { m, h }); });
+battery!(BodyMap, "BodyMap", "body HashMap", maps = [""], |p, out| { cart!(out; m in p.maps(), h in p.i32s(); BodyMap { m, h }); });
 
 #[derive(Form, Debug, PartialEq, Clone)]
 pub struct BodyOpt {
@@ -389,7 +397,7 @@ pub struct Colls {
     pub m: HashMap<String, i32>,
     pub o: Vec<Option<i32>>,
 }
-battery!(Colls, "Colls", "Vec, HashMap, Vec<Option>", |p, out| { cart!(out; v in p.vec_i32s(), m in p.maps(), o in p.vec_opt_i32s(); Colls { v, m, o }); });
+battery!(Colls, "Colls", "Vec, HashMap, Vec<Option>", maps = ["m:/"], |p, out| { cart!(out; v in p.vec_i32s(), m in p.maps(), o in p.vec_opt_i32s(); Colls { v, m, o }); });
 
 #[derive(Form, Debug, PartialEq, Clone)]
 pub struct AttrColls {
@@ -399,7 +407,7 @@ pub struct AttrColls {
     pub m: HashMap<String, i32>,
     pub x: i32,
 }
-battery!(AttrColls, "AttrColls", "Vec / HashMap as attr", |p, out| { cart!(out; v in p.vec_i32s(), m in p.maps(), x in p.i32s(); AttrColls { v, m, x }); });
+battery!(AttrColls, "AttrColls", "Vec / HashMap as attr", maps = ["@m/"], |p, out| { cart!(out; v in p.vec_i32s(), m in p.maps(), x in p.i32s(); AttrColls { v, m, x }); });
 
 #[derive(Form, Debug, PartialEq, Clone)]
 pub struct IntMap {
@@ -407,7 +415,7 @@ pub struct IntMap {
     #[form(header)]
     pub hm: HashMap<String, i32>,
 }
-battery!(IntMap, "IntMap", "HashMap with int keys; HashMap in header slot", |p, out| { cart!(out; m in p.int_maps(), hm in p.maps(); IntMap { m, hm }); });
+battery!(IntMap, "IntMap", "HashMap with int keys; HashMap in header slot", maps = ["m:/", "@IntMap/hm:/"], |p, out| { cart!(out; m in p.int_maps(), hm in p.maps(); IntMap { m, hm }); });
 
 #[derive(Form, Debug, PartialEq, Clone)]
 pub struct Prims {
